@@ -136,6 +136,21 @@ func TestVerif_C07(t *testing.T) {
 			// blinking warm blob over a scene wholly at or below the threshold
 			frames = blobStream(rng, cfg, rng.Range(6, 40), rng.PickInt(0, 0, 5))
 		}
+		if idx%400 == 200 {
+			// Boson-sized frames, whole-scene steps: sums over the interior pass 2^31 and 2^32
+			cfg.W, cfg.H, cfg.Edge = 320, 256, rng.PickInt(0, 1, 2)
+			if idx%1600 == 600 {
+				cfg.W, cfg.H = 640, 512
+			}
+			cfg.Count = rng.PickInt(1, 3, 1000, cfg.interiorN())
+			cfg.Delta = uint16(rng.PickInt(30, 200, 20000))
+			cfg.Temp = uint16(rng.PickInt(0, 3000, 28000))
+			cfg.TMin, cfg.TMax = 0, 0
+			if cfg.Gap > 5 {
+				cfg.Gap = rng.Range(1, 5)
+			}
+			frames = sceneStepStream(rng, cfg, rng.Range(3, 9))
+		}
 		via := idx%2 == 1
 		bad := -1
 		c.Case(idx, func() interface{} { return detStreamDesc(cfg, frames, bad)() }, func() {
@@ -180,6 +195,9 @@ func TestVerif_C07(t *testing.T) {
 			c.Count("motion_frames", int64(motionFrames))
 			if idx%7 == 3 && cfg.W < 100 {
 				c.Count("blinking_blob_streams", 1)
+			}
+			if cfg.W >= 320 {
+				c.Count("boson_sized_streams", 1)
 			}
 			if via {
 				c.Count("streams_via_processor_api", 1)
